@@ -167,3 +167,35 @@ Section Closed.
     f_equal; field; exact Hs.
   Qed.
 End Closed.
+
+(* ================================================================= the sub-border statement in one piece *)
+Lemma Forall2_imp_in {A B} (P Q : A -> B -> Prop) l l' :
+  (forall a b, In a l -> P a b -> Q a b) -> Forall2 P l l' -> Forall2 Q l l'.
+Proof.
+  intros H F. induction F as [|a b l l' Hab F IH]; constructor.
+  - apply H; [left; reflexivity|exact Hab].
+  - apply IH. intros a' b' Ha'. apply H. right. exact Ha'.
+Qed.
+
+Theorem sub_border_farthest_in_range m ss : shape_ok m ss = true ->
+  exists out cc,
+    @sub_border_pixel_slim_indexes_from ROps m ss = Ok out /\ bbox_centre_of (@unit_grid ROps m ss) cc /\
+    Forall2 (fun bp k =>
+        (bp < total_pixels_2d_from m)%nat /\
+        (sub_offset ss bp <= k < sub_offset ss bp + sz ss bp * sz ss bp)%nat /\
+        forall k', (sub_offset ss bp <= k' < sub_offset ss bp + sz ss bp * sz ss bp)%nat ->
+          dist (nth k' (@unit_grid ROps m ss) (0, 0)) cc <= dist (nth k (@unit_grid ROps m ss) (0, 0)) cc)
+      (border_slim_spec m) out.
+Proof.
+  intros H. destruct (sub_border_total m ss H) as (out & Hout & _).
+  destruct (shape_ok_inv _ _ H) as (Hr & _).
+  destruct (sub_border_in_block_and_farthest m ss out Hout) as (cc & Hcc & HF).
+  exists out, cc. split; [exact Hout|]. split; [exact Hcc|].
+  rewrite (border_slim_is_spec m Hr) in HF.
+  eapply Forall2_imp_in; [|exact HF]. cbv beta. intros bp k Hbp [Hin Hmax].
+  apply in_border_slim_spec in Hbp. destruct Hbp as [Hlt _].
+  unfold block in *. rewrite block_is_range in * by exact Hlt.
+  split; [exact Hlt|]. split.
+  - apply in_seq in Hin. lia.
+  - intros k' Hk'. apply Hmax. apply in_seq. lia.
+Qed.
